@@ -140,9 +140,10 @@ func checkFloatPair(res *result, prev float64, prevKey []byte, havePrev bool, v 
 		switch {
 		case prev < v && c >= 0:
 			res.v(floatSig("float-order", prev, v), "float64 %v < %v but keys %x >= %x", prev, v, prevKey, k)
-		case prev == v && c > 0:
-			// the two zeros: equal values may share a key or be adjacent, never inverted
-			res.v(floatSig("float-order", prev, v), "float64 %v == %v (bits %016x, %016x) but keys %x > %x", prev, v, math.Float64bits(prev), math.Float64bits(v), prevKey, k)
+		case prev == v && c != 0:
+			// the two zeros: key order must coincide with value order, so equal values share one
+			// key - a scan bound of -0.0 must cut exactly where +0.0 does
+			res.v(floatSig("float-order", prev, v), "float64 %v == %v (bits %016x, %016x) but their keys differ: %x, %x", prev, v, math.Float64bits(prev), math.Float64bits(v), prevKey, k)
 		}
 		if math.Signbit(prev) != math.Signbit(v) || math.Float64bits(prev)>>52 != math.Float64bits(v)>>52 {
 			res.Nontriv++ // sign or exponent boundary crossed
